@@ -1,5 +1,5 @@
 ---- MODULE MCPipeline ----
-EXTENDS Pipeline
+EXTENDS Pipeline, Json
 T(s, p, o) == <<s, p, o>>
 U3 == {T("a","p","o"), T("a","q","o"), T("b","p","o")}
 U4 == U3 \cup {T("b","q","o")}
@@ -8,4 +8,13 @@ Vy == <<"v","y">>
 RulesPQ == << [prem |-> << <<Vx, <<"c","p">>, Vy>> >>, concl |-> << <<Vx, <<"c","q">>, Vy>> >>] >>
 QueryQ == << <<Vx, <<"c","q">>, Vy>> >>
 AllOps == {"RSTREAM", "ISTREAM", "DSTREAM"}
+RulesChain == << [prem |-> << <<Vx, <<"c","p">>, Vy>> >>, concl |-> << <<Vx, <<"c","q">>, Vy>> >>],
+                 [prem |-> << <<Vx, <<"c","q">>, Vy>> >>, concl |-> << <<Vy, <<"c","q">>, Vx>> >>] >>
+RECURSIVE AsSeq(_)
+AsSeq(S) == IF S = {} THEN <<>> ELSE LET x == CHOOSE y \in S : TRUE IN <<x>> \o AsSeq(S \ {x})
+\* L2: one line per completely processed sequence of window contents with the emissions the model predicts (the
+\* interleavings of feeder and worker all end in the same emissions - that is the invariant)
+Emit == (Len(fed) = MaxFirings /\ pc = "idle" /\ chan = <<>> /\ Len(emitted) = MaxFirings) =>
+          PrintT(<<"REPLAY", ToJson([op |-> op, fed |-> [k \in 1..Len(fed) |-> AsSeq(fed[k])],
+                     emitted |-> [k \in 1..Len(emitted) |-> AsSeq({[row |-> m, n |-> emitted[k][m]] : m \in DOMAIN emitted[k]})]])>>)
 ====
